@@ -199,6 +199,12 @@ class View:
         self.dom = _arr(E, heap, ("dom", "str"), _Bo, _S)
         self.val = _arr(E, heap, ("dv", "str", "ref:Node", 0), _I, _S)
 
+    def keys_of(self, n):
+        return z3.Select(self.dom, n)
+
+    def vals_of(self, n):
+        return z3.Select(self.val, n)
+
     def has(self, n, k):
         return z3.Select(z3.Select(self.dom, n), k)
 
@@ -246,8 +252,20 @@ def _isinstance(E, args, kwargs):
 #   trail:<qual>   list of the objects visited by the walk (trail[0] = store.shares)
 #   gf:<qual>      one-element int list: index of the first trail object allocated by this call
 #                  (== number of trail objects so far when none was allocated)
+_HEAP_KEYS = [(("f", "Nos.isshare", 0), [_I], _Bo), (("f", "Node._name", 0), [_I], _S),
+              (("f", "Node._keys", 0), [_I], _I), (("f", "Share.name", 0), [_I], _S),
+              (("f", "Share.store", 0), [_I], _I), (("f", "Store.shares", 0), [_I], _I),
+              (("dom", "str"), [_I, _S], _Bo), (("dv", "str", "ref:Node", 0), [_I, _S], _I),
+              (("len",), [_I], _I), (("el", "str", 0), [_I, _I], _S), (("el", "ref:Node", 0), [_I, _I], _I),
+              (("el", "int", 0), [_I, _I], _I)]
+
+
 def _setup(E):
     E.ghost.setdefault("c18", {})
+    # every heap array of the view exists from the start (the engine havocs at a loop head only arrays that
+    # already exist there)
+    for key, doms, rng in _HEAP_KEYS:
+        E.harr(key, doms, rng)
 
 
 def _setup_mut(E):
@@ -478,6 +496,23 @@ contract(FS, "Store.fetchNode", "C18", params=P_NAME, setup=_setup, externals=EX
          modifies=[], ensures=["found_node(self, name, result)"], returns=Opt(NODE))
 
 
+# clause texts that compare with the entry state carry the entry snapshot for their native twins
+UNCHANGED = "tree_unchanged(old(tree_snap(self)), tree_snap(self))"
+LABELS = "labels_kept(old(tree_snap(self)), tree_snap(self))"
+
+
+@specfunc
+def tree_snap(E, self_):
+    """native only: path -> (identity, kind, name) of every object in the store tree (the prover reads the entry
+    heap instead)"""
+    return None
+
+
+@specfunc
+def map_snap(E, node):
+    return None
+
+
 # ------------------------------------------------------------------------------------------------ Node as a map
 # odict.setdefault / odict.__setitem__ on a Node, at the level of the map (see module docstring).
 def _ext_dict_setdefault(E, args, kwargs):
@@ -511,22 +546,18 @@ _mod_map.frame = _mod_map_frame
 
 
 @specfunc
-def map_same(E, self_):
+def map_same(E, self_, _snap=None):
     V, O, n = View(E), _old(E), self_.t
-    k = _bv("k", E, _S)
-    return Sym(z3.ForAll([k], z3.And(V.has(n, k) == O.has(n, k),
-                                     z3.Implies(O.has(n, k), V.child(n, k) == O.child(n, k)))), "bool")
+    return Sym(z3.And(V.keys_of(n) == O.keys_of(n), V.vals_of(n) == O.vals_of(n)), "bool")
 
 
 @specfunc
-def map_put(E, self_, key, val):
-    """the map of self afterwards: key -> val, every other key as at entry"""
+def map_put(E, self_, key, val, _snap=None):
+    """the map of self afterwards: the entry map with key -> val"""
     V, O, n = View(E), _old(E), self_.t
-    k = _bv("k", E, _S)
     kt = zstr(key)
-    others = z3.ForAll([k], z3.Implies(k != kt, z3.And(V.has(n, k) == O.has(n, k),
-                                                        z3.Implies(O.has(n, k), V.child(n, k) == O.child(n, k)))))
-    return Sym(z3.And(V.has(n, kt), V.child(n, kt) == val.t, others), "bool")
+    return Sym(z3.And(V.keys_of(n) == z3.Store(O.keys_of(n), kt, z3.BoolVal(True)),
+                      V.vals_of(n) == z3.Store(O.vals_of(n), kt, val.t)), "bool")
 
 
 def _after_setdefault(E, env):
@@ -554,11 +585,11 @@ EXT_MAP = {dict.setdefault: _ext_dict_setdefault, dict.__setitem__: _ext_dict_se
 
 contract(FO, "odict.setdefault", "C18", params=dict(self=NODE, key=STR, default=NODE), externals=EXT_MAP,
          modifies=[_mod_map], returns=NODE, result_fn=_after_setdefault,
-         ensures=["implies(old(key in self), map_same(self) and result is old(self[key]))",
-                  "implies(not old(key in self), map_put(self, key, default) and result is default)"],
+         ensures=["implies(old(key in self), map_same(self, old(map_snap(self))) and id(result) == old(id(self[key])))",
+                  "implies(not old(key in self), map_put(self, key, default, old(map_snap(self))) and result is default)"],
          note="map level; called by Store.add / addNode on a Node")
 contract(FO, "odict.__setitem__", "C18", params=dict(self=NODE, key=STR, val=NODE), externals=EXT_MAP,
-         modifies=[_mod_map], result_fn=_after_setitem, ensures=["map_put(self, key, val)"],
+         modifies=[_mod_map], result_fn=_after_setitem, ensures=["map_put(self, key, val, old(map_snap(self)))"],
          note="map level; called by Store.add / change on a Node")
 
 
@@ -586,27 +617,27 @@ def wf(E, self_):
 
 
 @specfunc
-def tree_unchanged(E):
-    """every object of the entry heap has the entries, tag and name it had at entry"""
+def tree_unchanged(E, _snap0=None, _snap1=None):
+    """every object of the entry heap has the map, tag and name it had at entry"""
     V, O = View(E), _old(E)
-    n, k = _bv("n", E), _bv("k", E, _S)
-    ent = z3.ForAll([n, k], z3.Implies(n > 0, z3.And(V.has(n, k) == O.has(n, k),
-                                                      z3.Implies(O.has(n, k), V.child(n, k) == O.child(n, k)))))
-    lab = z3.ForAll([n], z3.Implies(n > 0, z3.And(V.isshare(n) == O.isshare(n),
-                                                  z3.Select(V.nname, n) == z3.Select(O.nname, n),
-                                                  z3.Select(V.sname, n) == z3.Select(O.sname, n))))
-    return Sym(z3.And(ent, lab), "bool")
+    n = _bv("n", E)
+    return Sym(z3.ForAll([n], z3.Implies(n > 0, z3.And(
+        V.keys_of(n) == O.keys_of(n), V.vals_of(n) == O.vals_of(n), V.isshare(n) == O.isshare(n),
+        z3.Select(V.nname, n) == z3.Select(O.nname, n), z3.Select(V.sname, n) == z3.Select(O.sname, n)))), "bool")
 
 
 def _grown(V, O, t, gf, limit, lev, E):
-    """entries of entry-heap nodes: none removed or replaced; the only possible new one is (t[gf-1], lev(gf-1)),
-    and only if gf <= limit"""
-    n, k = _bv("n", E), _bv("k", E, _S)
-    kept = z3.ForAll([n, k], z3.Implies(z3.And(n > 0, O.has(n, k)),
-                                        z3.And(V.has(n, k), V.child(n, k) == O.child(n, k))))
-    new = z3.ForAll([n, k], z3.Implies(z3.And(n > 0, V.has(n, k), z3.Not(O.has(n, k))),
-                                       z3.And(gf <= limit, n == z3.Select(t, gf - 1), k == lev(gf - 1))))
-    return [kept, new]
+    """maps of the objects of the entry heap: all as at entry, except that - if gf <= limit - the node t[gf-1]
+    gained the ONE entry lev(gf-1) -> t[gf], a key it did not have"""
+    n = _bv("n", E)
+    A, kA = z3.Select(t, gf - 1), lev(gf - 1)
+    grew = gf <= limit
+    others = z3.ForAll([n], z3.Implies(z3.And(n > 0, z3.Or(z3.Not(grew), n != A)),
+                                       z3.And(V.keys_of(n) == O.keys_of(n), V.vals_of(n) == O.vals_of(n))))
+    one = z3.Implies(grew, z3.And(z3.Not(O.has(A, kA)),
+                                  V.keys_of(A) == z3.Store(O.keys_of(A), kA, z3.BoolVal(True)),
+                                  V.vals_of(A) == z3.Store(O.vals_of(A), kA, z3.Select(t, gf))))
+    return [others, one]
 
 
 def _fresh_chain(V, t, gf, last, lev, open_last, E):
@@ -630,8 +661,8 @@ def _old_prefix(t, gf, E):
 
 
 @specfunc
-def grow_inv(E, self_, levels, node, depth, i):
-    """loop invariant of add / addNode at the head of iteration i"""
+def grow_inv(E, part, self_, levels, node, depth, i):
+    """loop invariant of add / addNode at the head of iteration i (one named part per obligation)"""
     V, O = View(E), _old(E)
     t, n, gf = _trail(E)
     i = zint(i)
@@ -641,21 +672,32 @@ def grow_inv(E, self_, levels, node, depth, i):
     j, m = _bv("j", E), _bv("m", E)
     cur = node.t
     curname = z3.Select(V.nname, cur)
-    parts = [n == i + 1, z3.Select(t, 0) == root, z3.Select(t, i) == cur, zint(depth) == i, cur != 0,
-             z3.ForAll([j], z3.Implies(z3.And(j >= 0, j < i), V.step(z3.Select(t, j), lev(j), z3.Select(t, j + 1)))),
-             gf >= 1, gf <= i + 1, _old_prefix(t, gf, E),
-             z3.Not(V.isshare(cur)), V.depth(cur) == i,
-             z3.ForAll([m], z3.Implies(z3.And(m >= 0, m < i), LV(curname, m) == lev(m))),
-             z3.ForAll([m], z3.Implies(z3.And(m >= 0, m < i), lev(m) != z3.StringVal("")))]
-    parts += _wf_terms(V, E)
-    parts += _grown(V, O, t, gf, i, lev, E)
-    parts += _fresh_chain(V, t, gf, i, lev, True, E)
+    if part == "trail":
+        parts = [n == i + 1, z3.Select(t, 0) == root, z3.Select(t, i) == cur, zint(depth) == i, cur != 0,
+                 z3.ForAll([j], z3.Implies(z3.And(j >= 0, j < i),
+                                           V.step(z3.Select(t, j), lev(j), z3.Select(t, j + 1)))),
+                 gf >= 1, gf <= i + 1, _old_prefix(t, gf, E)]
+    elif part == "cur":
+        parts = [z3.Not(V.isshare(cur)), V.depth(cur) == i,
+                 z3.ForAll([m], z3.Implies(z3.And(m >= 0, m < i), LV(curname, m) == lev(m))),
+                 z3.ForAll([m], z3.Implies(z3.And(m >= 0, m < i), lev(m) != z3.StringVal("")))]
+    elif part == "wf":
+        parts = _wf_terms(V, E)
+    elif part == "grown":
+        parts = _grown(V, O, t, gf, i, lev, E)
+    elif part in ("named", "prefix", "onekey"):
+        parts = [_fresh_chain(V, t, gf, i, lev, True, E)[("named", "prefix", "onekey").index(part)]]
+    else:
+        raise Unsupported("grow_inv part %r" % part)
     return Sym(z3.And(*parts), "bool")
 
 
-def _added(E, self_, leaf, name, kind, qual=None):
+GROW_PARTS = ("trail", "cur", "wf", "grown", "named", "prefix", "onekey")
+
+
+def _added(E, part, self_, leaf, name, kind, qual=None):
     """whole-view post-condition of add (kind 'share': leaf = the share, name = its name) and addNode (kind
-    'node': leaf = the returned node)"""
+    'node': leaf = the returned node), one named part per obligation"""
     V, O = View(E), _old(E)
     t, n, gf = _trail(E, qual)
     root = E.rd_field(self_, "shares").t
@@ -663,29 +705,33 @@ def _added(E, self_, leaf, name, kind, qual=None):
     L = NL(nm)
     lev = lambda x: LV(nm, x)
     last = L - 1 if kind == "share" else L            # last trail index that may be a node allocated here
-    parts = [n == L + 1, _walk(V, root, nm, t, L, E), z3.Select(t, L) == leaf.t,
-             gf >= 1, gf <= last + 1, _old_prefix(t, gf, E)]
-    parts += _grown(V, O, t, gf, L, lev, E)
-    parts += _fresh_chain(V, t, gf, last, lev, kind == "node", E)
-    if kind == "share":
-        parts += [V.isshare(leaf.t), z3.Not(O.has(z3.Select(t, L - 1), lev(L - 1)))]
+    if part == "walk":
+        parts = [n == L + 1, _walk(V, root, nm, t, L, E), z3.Select(t, L) == leaf.t,
+                 V.isshare(leaf.t) if kind == "share" else z3.Not(V.isshare(leaf.t))]
+    elif part == "gf":
+        parts = [gf >= 1, gf <= last + 1, _old_prefix(t, gf, E)]
+    elif part == "grown":
+        parts = _grown(V, O, t, gf, L, lev, E)
     else:
-        parts += [z3.Not(V.isshare(leaf.t))]
+        parts = [_fresh_chain(V, t, gf, last, lev, kind == "node", E)[("named", "prefix", "onekey").index(part)]]
     return z3.And(*parts)
 
 
-@specfunc
-def added_share(E, self_, share):
-    return Sym(_added(E, self_, share, E.rd_field(share, "name"), "share"), "bool")
+ADDED_PARTS = ("walk", "gf", "grown", "named", "prefix", "onekey")
 
 
 @specfunc
-def added_node(E, self_, name, result):
-    return Sym(_added(E, self_, result, name, "node"), "bool")
+def added_share(E, part, self_, share, _snap=None):
+    return Sym(_added(E, part, self_, share, E.rd_field(share, "name"), "share"), "bool")
 
 
 @specfunc
-def labels_kept(E):
+def added_node(E, part, self_, name, result, _snap=None):
+    return Sym(_added(E, part, self_, result, name, "node"), "bool")
+
+
+@specfunc
+def labels_kept(E, _snap0=None, _snap1=None):
     """tags and names of the objects of the entry heap are unchanged"""
     V, O = View(E), _old(E)
     n = _bv("n", E)
@@ -713,8 +759,14 @@ def _mod_tree(E):
 def _mod_tree_frame(E):
     """frame: the one entry-heap node that may gain / change an entry is t[gf-1] (add, addNode) resp. the parent of
     the leaf (change)"""
-    t, n, gf = _trail(E)
     qual = E.frame.qual
+    if qual in _VIA:
+        # create / createNode: the callee's witness, if the adding callee ran on this path
+        if "trail:" + _VIA[qual][1] not in _tab(E):
+            return []
+        t, n, gf = _trail(E, _VIA[qual][1])
+    else:
+        t, n, gf = _trail(E)
     V = View(E)
     if qual == "Store.change":
         nm = z3.Select(V.sname, E.frame.env["share"].t)
@@ -725,9 +777,12 @@ def _mod_tree_frame(E):
 
 
 _mod_tree.frame = _mod_tree_frame
+_VIA = {"Store.create": ("Store.fetchShare", "Store.add", "share"),
+        "Store.createNode": ("Store.fetchNode", "Store.addNode", "node")}
 
 P_ADD = dict(self=Ref("Store"), share=Ref("Share"))
-GROW_LOOP = {0: dict(inv=["grow_inv(self, levels, node, depth, _i)"], havoc=lambda E: _unsign(E, "node"))}
+GROW_LOOP = {0: dict(inv=["grow_inv('%s', self, levels, node, depth, _i)" % p_ for p_ in GROW_PARTS],
+                     havoc=lambda E: _unsign(E, "node"))}
 
 
 def _unsign(E, name):
@@ -743,6 +798,287 @@ def _unsign(E, name):
 contract(FS, "Store.add", "C18", params=P_ADD, setup=_setup_mut, externals=EXT, loops=GROW_LOOP,
          inline={"Share.changeStore"},
          requires=["wf(self)"], modifies=["share.store", _mod_tree],
-         ensures=["wf(self)", "added_share(self, share)", "labels_kept()", "result is share",
+         ensures=["wf(self)"] + ["added_share('%s', self, share, old(tree_snap(self)))" % p_ for p_ in ADDED_PARTS] +
+                 [LABELS, "result is share",
                   "share.store is self"],
-         raises={"ValueError": ["tree_unchanged()", "share.store is old(share.store)"]}, returns=Ref("Share"))
+         raises={"ValueError": [UNCHANGED, "share.store is old(share.store)"]}, returns=Ref("Share"))
+
+contract(FS, "Store.addNode", "C18", params=P_NAME, setup=_setup_mut, externals=EXT, loops=GROW_LOOP,
+         requires=["wf(self)"], modifies=[_mod_tree],
+         ensures=["wf(self)"] + ["added_node('%s', self, name, result, old(tree_snap(self)))" % p_ for p_ in ADDED_PARTS] + [LABELS],
+         raises={"ValueError": [UNCHANGED]}, returns=NODE)
+
+
+# ------------------------------------------------------------------------------------------------ change
+@specfunc
+def walk_inv(E, part, self_, levels, node, i):
+    """loop invariant of change (the heap is not written by the loop): the trail is the walk of levels[:i]"""
+    V = View(E)
+    t, n, _gf = _trail(E)
+    i = zint(i)
+    root = E.rd_field(self_, "shares").t
+    la = E.larrs(levels)[0]
+    lev = lambda x: z3.Select(la, x)
+    j, m = _bv("j", E), _bv("m", E)
+    cur = node.t
+    curname = z3.Select(V.nname, cur)
+    if part == "trail":
+        parts = [n == i + 1, z3.Select(t, 0) == root, z3.Select(t, i) == cur, cur > 0,
+                 z3.ForAll([j], z3.Implies(z3.And(j >= 0, j < i),
+                                           V.step(z3.Select(t, j), lev(j), z3.Select(t, j + 1))))]
+    else:
+        parts = [z3.Not(V.isshare(cur)), V.depth(cur) == i,
+                 z3.ForAll([m], z3.Implies(z3.And(m >= 0, m < i), LV(curname, m) == lev(m)))]
+    return Sym(z3.And(*parts), "bool")
+
+
+@specfunc
+def changed(E, part, self_, share, _snap=None):
+    """exactly the entry (t[L-1], levels[L-1]) is replaced by the share; it held a share before"""
+    V, O = View(E), _old(E)
+    t, n, _gf = _trail(E)
+    root = E.rd_field(self_, "shares").t
+    nm = z3.Select(O.sname, share.t)
+    L = NL(nm)
+    par, key = z3.Select(t, L - 1), LV(nm, L - 1)
+    if part == "walk":
+        parts = [_walk(V, root, nm, t, L - 1, E), par > 0, z3.Not(V.isshare(par)),
+                 O.has(par, key), O.isshare(O.child(par, key)), V.has(par, key), V.child(par, key) == share.t,
+                 V.isshare(share.t)]
+    else:
+        nn = _bv("n", E)
+        parts = [z3.ForAll([nn], z3.Implies(z3.And(nn > 0, nn != par),
+                                            z3.And(V.keys_of(nn) == O.keys_of(nn), V.vals_of(nn) == O.vals_of(nn)))),
+                 V.keys_of(par) == O.keys_of(par), V.vals_of(par) == z3.Store(O.vals_of(par), key, share.t)]
+    return Sym(z3.And(*parts), "bool")
+
+
+contract(FS, "Store.change", "C18", params=P_ADD, setup=_setup_mut, externals=EXT,
+         loops={0: dict(inv=["walk_inv('trail', self, levels, node, _i)", "walk_inv('cur', self, levels, node, _i)"])},
+         inline={"Share.changeStore"},
+         requires=["wf(self)"], modifies=["share.store", _mod_tree],
+         ensures=["wf(self)", "changed('walk', self, share, old(tree_snap(self)))", "changed('others', self, share, old(tree_snap(self)))", LABELS,
+                  "result is share", "share.store is self"],
+         raises={"ValueError": [UNCHANGED, "share.store is old(share.store)"]}, returns=Ref("Share"))
+
+
+# ------------------------------------------------------------------------------------------------ create / createNode
+@specfunc
+def created(E, part, self_, name, result, _snap=None):
+    """create / createNode: EITHER the walk of levels(name) finds an object of the wanted kind, which is returned,
+    and nothing changed, OR the add / addNode post-condition holds for an object allocated by this call (a share
+    named name.strip('.') whose store is self / a node)"""
+    finder, adder, kind = _VIA[E.frame.qual]
+    V, O = View(E), _old(E)
+    if "trail:" + adder in _tab(E):
+        f = _added(E, part, self_, result, name, kind, qual=adder)
+        if part == "walk" and kind == "share":
+            f = z3.And(f, result.t < 0, z3.Select(V.sname, result.t) == STRIP(zstr(name)),
+                       z3.Select(V.sstore, result.t) == self_.t)
+        return Sym(f, "bool")
+    t, n, _gf = _trail(E, finder)
+    root = E.rd_field(self_, "shares").t
+    nm = zstr(name)
+    L = NL(nm)
+    if part == "walk":
+        last = z3.Select(t, L)
+        good = V.isshare(last) if kind == "share" else z3.Not(V.isshare(last))
+        return Sym(z3.And(_walk(V, root, nm, t, L, E), result.t == last, good), "bool")
+    if part == "grown":
+        return tree_unchanged(E)
+    return True
+
+
+for _q, _k in (("Store.create", "share"), ("Store.createNode", "node")):
+    contract(FS, _q, "C18", params=P_NAME, setup=_setup_mut, externals=EXT, requires=["wf(self)"],
+             modifies=[_mod_tree],
+             ensures=["wf(self)"] + ["created('%s', self, name, result, old(tree_snap(self)))" % p_ for p_ in ADDED_PARTS] + [LABELS],
+             raises={"ValueError": [UNCHANGED]}, returns=NODE)
+
+
+# ================================================================================================ native side
+# Reference semantics on REAL objects (dict base methods, explicit kind tests); every clause text above has a twin
+# here, so the native harness evaluates the same clauses on the real Store / Node / Share.
+def _n_snap(store):
+    from ioflo.base import storing
+    root = store.shares
+    out = {(): (id(root), "node", root.name)}
+
+    def rec(node, path):
+        for k in dict.keys(node):
+            c = dict.__getitem__(node, k)
+            kind = "share" if isinstance(c, storing.Share) else "node"
+            out[path + (k,)] = (id(c), kind, c.name)
+            if kind == "node":
+                rec(c, path + (k,))
+    rec(root, ())
+    return out
+
+
+def _n_kids(snap, p):
+    return [q for q in snap if len(q) == len(p) + 1 and q[:len(p)] == p]
+
+
+def _n_wf(store):
+    snap = _n_snap(store)
+    if snap[()][1:] != ("node", ""):
+        return False
+    for p, (_i, kind, name) in snap.items():
+        if not p:
+            continue
+        if _n_levels(name) != list(p):
+            return False
+        if kind == "node" and (name == "" or name.strip('.') != name or name != '.'.join(p)):
+            return False
+    return True
+
+
+def _n_unchanged(s0, s1):
+    return s0 == s1
+
+
+def _n_labels(s0, s1):
+    """objects of the entry tree that are still in the tree kept their kind and name"""
+    d0 = {i: (k, n) for (i, k, n) in s0.values()}
+    d1 = {i: (k, n) for (i, k, n) in s1.values()}
+    return all(d1[i] == v for i, v in d0.items() if i in d1)
+
+
+def _n_paths_kept(s0, s1):
+    return all(p in s1 and s1[p] == v for p, v in s0.items())
+
+
+def _n_added(store, leaf, name, kind, old):
+    lv = _n_levels(name)
+    cur = _n_snap(store)
+    if not _n_paths_kept(old, cur):                  # every old path keeps its object, kind and name
+        return False
+    full = tuple(lv)
+    expect = set(tuple(lv[:j]) for j in range(1, len(lv) + 1) if tuple(lv[:j]) not in old)
+    if set(cur) - set(old) != expect:                # exactly the missing prefixes (and the leaf) are new
+        return False
+    if cur.get(full, (None,))[0] != id(leaf) or cur[full][1] != kind:
+        return False
+    if kind == "share" and full in old:
+        return False
+    for p in expect:
+        if p == full and kind == "share":
+            continue
+        if cur[p][1] != "node" or cur[p][2] != '.'.join(p):
+            return False
+        if len(_n_kids(cur, p)) != (1 if p != full else 0):
+            return False
+    return True
+
+
+def _n_changed(store, share, old):
+    lv = tuple(_n_levels(share.name))
+    cur = _n_snap(store)
+    if lv not in old or old[lv][1] != "share" or set(cur) != set(old):
+        return False
+    return all(cur[p] == (old[p] if p != lv else (id(share), "share", share.name)) for p in cur)
+
+
+def _n_created(kind):
+    def f(part, store, name, result, old):
+        from ioflo.base import storing
+        lv = tuple(_n_levels(name))
+        if lv in old and old[lv][1] == kind:
+            return _n_snap(store) == old and id(result) == old[lv][0]
+        if not _n_added(store, result, name, kind, old):
+            return False
+        return kind == "node" or (result.name == name.strip('.') and result.store is store)
+    return f
+
+
+tree_snap.native = _n_snap
+map_snap.native = lambda node: {k: id(dict.__getitem__(node, k)) for k in dict.keys(node)}
+wf.native = _n_wf
+tree_unchanged.native = _n_unchanged
+labels_kept.native = _n_labels
+added_share.native = lambda part, store, share, old: _n_added(store, share, share.name, "share", old)
+added_node.native = lambda part, store, name, result, old: _n_added(store, result, name, "node", old)
+changed.native = lambda part, store, share, old: _n_changed(store, share, old)
+map_same.native = lambda node, old: map_snap.native(node) == old
+map_put.native = lambda node, key, val, old: (dict.__getitem__(node, key) is val and
+                                              {k: v for k, v in map_snap.native(node).items() if k != key} ==
+                                              {k: v for k, v in old.items() if k != key})
+
+
+def _n_created_dispatch(part, store, name, result, old):
+    from ioflo.base import storing
+    return _n_created("share" if isinstance(result, storing.Share) else "node")(part, store, name, result, old)
+
+
+created.native = _n_created_dispatch
+
+_LEVELS = ["a", "b", "c", "value", "a", "b", ""]
+
+
+def _rnd_name(rng):
+    k = rng.choice([1, 1, 2, 2, 2, 3, 3, 4])
+    lv = [rng.choice(_LEVELS) for _ in range(k)]
+    return rng.choice(["", "", "", ".", ".."]) + ".".join(lv) + rng.choice(["", "", "", ".", ".."])
+
+
+def _rnd_store(rng):
+    """a real store built through its own operations (random sequence, rejected operations included)"""
+    from ioflo.base import storing
+    store = object.__new__(storing.Store)
+    store.name = "c18"
+    store.stamp = None
+    store.shares = storing.Node().byName('')
+    for _ in range(rng.randint(0, 7)):
+        nm = _rnd_name(rng)
+        try:
+            op = rng.randint(0, 3)
+            if op == 0:
+                sh = store.create(nm)
+                if rng.random() < 0.6:            # data fields named like levels: a lookup below the share hits them
+                    sh.change([(f, rng.choice([1, "txt", {"a": 2}])) for f in rng.sample(["a", "b", "value"], 2)])
+            elif op == 1:
+                store.createNode(nm)
+            elif op == 2:
+                store.add(storing.Share(name=nm))
+            else:
+                store.addNode(nm)
+        except (ValueError, TypeError):       # TypeError: a lookup below a share (defect of the unrepaired lookups)
+            pass
+    return store
+
+
+def _mk_name(rng, i, cex, nr):
+    return {"self": _rnd_store(rng), "name": _rnd_name(rng)}
+
+
+def _mk_share(rng, i, cex, nr):
+    from ioflo.base import storing
+    store = _rnd_store(rng)
+    snap = _n_snap(store)
+    name = _rnd_name(rng)
+    if rng.random() < 0.5 and len(snap) > 1:        # aim at an existing path (change needs one)
+        name = rng.choice(["", "."]) + ".".join(rng.choice([p for p in snap if p])) + rng.choice(["", "."])
+    import types
+    arg = storing.Share(name=name) if rng.random() < 0.95 else types.SimpleNamespace(name=name, store=None)
+    return {"self": store, "share": arg}
+
+
+def _mk_map(rng, i, cex, nr):
+    from ioflo.base import storing
+    node = storing.Node()
+    for k in rng.sample(["a", "b", "c", "d"], rng.randint(0, 3)):
+        node[k] = rng.choice([storing.Node(), storing.Share(name=k)])
+    env = {"self": node, "key": rng.choice(["a", "b", "c", "e"])}
+    env["default" if "default" in nr.params else "val"] = storing.Node()
+    return env
+
+
+for (_rel, _qual), _cs in list(REG.contracts.items()):
+    for _c in _cs:
+        if "C18" in _c.prop.split(",") and _c.replay is None:
+            if _rel == FO:
+                _c.replay = dict(make=_mk_map, count=120)
+            elif "share" in _c.params:
+                _c.replay = dict(make=_mk_share, count=400)
+            else:
+                _c.replay = dict(make=_mk_name, count=400)
